@@ -31,7 +31,9 @@ REGISTRY = dict(
           "|y| = 1) the returned energy is the Rayleigh quotient <psi,H psi> of the returned state and "
           "|H psi - theta psi| = beta_j |y_j| = residual_norm; in finite dimension <psi,H psi> >= the smallest "
           "eigenvalue of op. Assumed: LAPACK eigh contract (validated on every recorded call), exact arithmetic "
-          "(loss of orthogonality in binary64 is measured by the oracle, not modelled)."),
+          "(loss of orthogonality in binary64 is measured by the oracle, not modelled). The public "
+          "krylov_energy_minimization is modelled with its own parameter list (public_wrapper_uses_callers_tolerances) and "
+          "driven with distinct tolerances in both orders; what it returns is checked against the caller's residual_tolerance."),
     note=("Trusted: Lean kernel + propext/Classical.choice/Quot.sound; Mathlib; hand-written Model.Krylov tied to the "
           "code by tape-driven/dense/single-step correspondence; torch.linalg.eigh, Tensor.norm, vdot and binary64 "
           "rounding are outside the theorems."),
@@ -170,6 +172,93 @@ def run_public(case):
         except ValueError:
             return "raise value", None, None
     return "ret", st, e
+
+
+def run_public_rec(case):
+    """The PUBLIC entry point, recorded. Arguments are passed the way callers do: by keyword (emu_mps) or
+    positionally in the order of ITS signature (op, psi, norm_tolerance, residual_tolerance, max_krylov_dim)."""
+    import emu_base.math.krylov_energy_min as kem
+    h, v, op = _tensors(case)
+    rec = Recorder()
+    o_ritz = kem._ritz_vector
+
+    def ritz(*a, **k):
+        r = o_ritz(*a, **k)
+        rec.events.append(("ritz", r))
+        return r
+
+    with warnings.catch_warnings():
+        warnings.simplefilter("ignore")
+        try:
+            with rec.recording(), mock.patch.object(kem, "_ritz_vector", ritz):
+                if case.get("positional"):
+                    st, e = kem.krylov_energy_minimization(rec.wrap_op(op), v.clone(), case["ntol"], case["rtol"], case["md"])
+                else:
+                    st, e = kem.krylov_energy_minimization(rec.wrap_op(op), v.clone(), norm_tolerance=case["ntol"],
+                                                           residual_tolerance=case["rtol"], max_krylov_dim=case["md"])
+        except RecursionError:
+            return "raise recursion", None, None, rec
+        except ValueError:
+            return "raise value", None, None, rec
+    return "ret", st, e, rec
+
+
+def gen_pub_case(rng, tier):
+    """Public-wrapper stream: the two tolerances are DISTINCT, in both orders (and sometimes equal)."""
+    c = gen_case(rng, tier)
+    if c["n"] > 48:
+        c = gen_case(rng, "quick")
+    hn = max(float(np.linalg.norm(c["h"], 2)), 1e-300)
+    order = rng.choice(["norm>>resid", "norm>>resid", "norm<<resid", "equal"])
+    c["rtol"] = hn * 10 ** rng.uniform(-11, -6)
+    if order == "norm>>resid":
+        c["ntol"] = min(c["rtol"] * 10 ** rng.uniform(2, 6), hn * 1e-2)
+    elif order == "norm<<resid":
+        c["ntol"] = c["rtol"] * 10 ** rng.uniform(-5, -2)
+    else:
+        c["ntol"] = c["rtol"]
+    c["md"] = rng.choice([3, 5, 10, 20, 50, 100])
+    c["mr"] = 100                                  # the wrapper's default
+    c["order"] = order
+    c["positional"] = rng.random() < 0.5
+    return c
+
+
+def oracle_public_run(case, pk, st, e, cycles):
+    """C08 on what the PUBLIC entry point hands back, against the tolerances THE CALLER passed."""
+    hn = max(float(np.linalg.norm(case["h"], 2)), 1e-300)
+    if pk != "ret":
+        return None
+    psi = st.reshape(-1).numpy()
+    nrm = float(np.linalg.norm(psi))
+    if not abs(nrm - 1) <= 1e-10:
+        return f"krylov_energy_minimization returned a state of norm {nrm!r}"
+    hpsi = case["h"] @ psi
+    ray = float(np.real(np.vdot(psi, hpsi)))
+    if not abs(e - ray) <= 1e-8 * hn:
+        return f"krylov_energy_minimization: energy {e!r} is not the Rayleigh quotient {ray!r} of the returned state"
+    lam = float(np.linalg.eigvalsh(case["h"])[0])
+    if not e >= lam - 1e-8 * hn:
+        return f"krylov_energy_minimization: energy {e!r} below the lowest eigenvalue {lam!r}"
+    its = [t for c in cycles for t in c["its"]]
+    # happy breakdown as the caller understands it: the last beta is below the norm_tolerance he passed
+    breakdown = bool(its) and its[-1]["beta"] < case["ntol"]
+    res = float(np.linalg.norm(hpsi - e * psi))
+    if not breakdown and not res < case["rtol"] + 1e-10 * hn:
+        return (f"krylov_energy_minimization(norm_tolerance={case['ntol']:.3e}, residual_tolerance={case['rtol']:.3e}) returned "
+                f"without raising and without happy breakdown (last beta={its[-1]['beta'] if its else None!r}) but "
+                f"|H psi - E psi|={res:.3e} >= residual_tolerance (+1e-10|H|)")
+    return None
+
+
+def pub_tape_line(case, cycles):
+    nanb = f2b(float("nan"))
+    return " ".join(["kry.eminpub", f2b(case["ntol"]), f2b(case["rtol"]), str(case["md"]),
+                     l1(f2b(c["init"]) for c in cycles),
+                     l2([[cx(t["ov"]) for t in c["its"]] for c in cycles]),
+                     l2([[f2b(t["beta"]) for t in c["its"]] for c in cycles]),
+                     l2([[f2b(t["ritz_norm"]) if t["ritz_norm"] is not None else nanb for t in c["its"]] for c in cycles]),
+                     l3([[[f2b(t["eigh"][1][0])] + [f2b(x) for x in t["eigh"][2][:, 0]] for t in c["its"]] for c in cycles])])
 
 
 def parse_events(ev):
@@ -462,9 +551,6 @@ def check(rep: Report, tier: str, seed: int) -> None:
         rep.hist("iters_bucket", min(its // 10 * 10, 200))
         lines.append(tape_line("kry.emin", case, cycles))
         metas.append(("tape", case, kind, r, rec, cycles))
-        if case["mr"] == 100:
-            lines.append(tape_line("kry.eminpub", case, cycles))
-            metas.append(("pub", case, kind, r, rec, cycles))
         if dense:
             lines.append(" ".join(["kry.emind", f2b(case["rtol"]), f2b(case["ntol"]), str(case["md"]), str(case["mr"]),
                                    mat_line(case["h"]), l1(cx(z) for z in case["v"]),
@@ -480,6 +566,30 @@ def check(rep: Report, tier: str, seed: int) -> None:
         c = gen_corr_case(rng, tier, small=True)
         c["shape"] = (c["n"],)
         add(c, dense=True)
+    def add_pub(case):
+        try:
+            pk, st, e, rec = run_public_rec(case)
+        except Exception as ex:
+            rep.fail(f"real krylov_energy_minimization raised {type(ex).__name__}: {ex}", _ser(case))
+            return
+        cycles = parse_events(rec.events)
+        if cycles is None:
+            rep.broke("correspondence (public): kernel-call schedule not recognised: " + json.dumps([x[0] for x in rec.events][:40]))
+            return
+        msg = oracle_public_run(case, pk, st, e, cycles)
+        if msg:
+            rep.fail(msg, dict(_ser(case), public=True, positional=bool(case.get("positional"))))
+        rep.hist("public_order", case["order"] + ("/positional" if case.get("positional") else "/keyword"))
+        rep.hist("public_exit", pk)
+        lines.append(pub_tape_line(case, cycles))
+        name = None
+        if pk == "ret":
+            name = next((f"ritz:{ci}:{j}" for ci, c in enumerate(cycles) for j, t in enumerate(c["its"]) if t["ritz"] is st),
+                        f"q:{len(cycles) - 1}")
+        metas.append(("pub", case, pk, (e, name), rec, cycles))
+
+    for _ in range(70 if tier == "quick" else 800):
+        add_pub(gen_pub_case(rng, tier))
     rep.extra["worst_rayleigh_gap_over_normH"] = worst_ray
     rep.extra["worst_residual_over_threshold"] = worst_res
     slines, swants = step_lines(rng, 200 if tier == "quick" else 20000)
@@ -499,15 +609,22 @@ def check(rep: Report, tier: str, seed: int) -> None:
             continue
         its = sum(len(c["its"]) for c in cycles)
         if mode == "pub":
-            rep.case(key=None, nontrivial=False)
-            want = "raise value" if kind == "value" else ("ret" if (r.converged or r.happy_breakdown) else "raise recursion")
-            got = "ret" if reply.startswith("ret ") else reply
+            pk, (e, name) = kind, r
+            rep.case(key=("pub", case["n"], f2b(case["rtol"]), f2b(case["ntol"]), case["md"]), nontrivial=its >= 2)
+            want = pk if pk != "ret" else f"ret {f2b(e)} {name}"
+            got = reply
+            if reply.startswith("ret "):
+                p_ = reply.split(" ")
+                got = f"ret {p_[1] if p_[1] in ('inf', 'nan') else p_[1]} {p_[2]}"
             if got != want:
                 if near_tie(case, cycles):
                     rep.count("near_ties")
                     continue
                 dis += 1
-                rep.broke(f"correspondence krylov_energy_minimization (public) model={reply} real={want}: " + json.dumps(_brief(case)))
+                if dis <= 5:
+                    rep.broke(f"correspondence Model.Krylov.energyMinPublic vs krylov_energy_minimization (norm_tolerance={case['ntol']:.3e}, "
+                              f"residual_tolerance={case['rtol']:.3e}, {'positional' if case.get('positional') else 'keyword'}): "
+                              f"model={reply[:80]} real={want[:80]}; case=" + json.dumps(_brief(case)))
             continue
         key = (case["n"], f2b(case["rtol"]), case["md"], cx(cycles[0]["its"][0]["ov"]) if cycles and cycles[0]["its"] else "-")
         rep.case(key=key, nontrivial=its >= 2,
@@ -596,16 +713,31 @@ def search(rep: Report, seed: int, n: int, tier: str) -> None:
         if msg:
             rep.fail(msg, _ser(case))
             return
+        if i % 2 == 0:
+            pc = gen_pub_case(rng, tier)
+            pk, st, e, prec = run_public_rec(pc)
+            msg = oracle_public_run(pc, pk, st, e, parse_events(prec.events) or [])
+            if msg:
+                rep.fail(msg, dict(_ser(pc), public=True, positional=bool(pc.get("positional"))))
+                return
     rep.extra["search_cases"] = n
+
+
+def _replay_one(d):
+    case = _unser(d)
+    if d.get("public"):
+        case["positional"] = bool(d.get("positional"))
+        pk, st, e, rec = run_public_rec(case)
+        return oracle_public_run(case, pk, st, e, parse_events(rec.events) or [])
+    kind, r, rec = run_impl(case)
+    return oracle(case, kind, r, rec) or (oracle_public(case, kind, r) if case["mr"] == 100 else None)
 
 
 def replay(rep: Report, path: str) -> int:
     data = json.load(open(path))
     bad = 0
     for f in data.get("failing_inputs", []):
-        case = _unser(f["data"])
-        kind, r, rec = run_impl(case)
-        msg = oracle(case, kind, r, rec) or (oracle_public(case, kind, r) if case["mr"] == 100 else None)
+        msg = _replay_one(f["data"])
         print("replay:", msg or "property holds on this input now")
         bad += bool(msg)
     return 1 if bad else 0
